@@ -22,7 +22,7 @@ import time
 
 VERIF = os.path.dirname(os.path.dirname(os.path.abspath(__file__)))
 REPO = os.environ.get('STONE_REPO', '/repo')
-LEAN_DIR = os.path.join(VERIF, 'lean')
+LEAN_DIR = os.environ.get('VERIF_LEAN_DIR') or os.path.join(VERIF, 'lean')   # a private copy isolates a run from concurrent builds
 DRIVER = os.path.join(LEAN_DIR, '.lake', 'build', 'bin', 'driver')
 ALLOWED_AXIOMS = {'propext', 'Classical.choice', 'Quot.sound'}
 FORBIDDEN_RE = re.compile(
